@@ -35,7 +35,20 @@ def strata(tier):
     from props import c16
     # safe decorators with arguments no key can be built for (or whose key is unhashable): key()/lookup() must still never run the function
     unk = [('unkeyable/' + n, s.map(_add_introspection)) for n, s in c16.hostile_strata(tier)[1::3]]
-    return unk + _strata(tier)
+    from hypothesis import strategies as st
+    return unk + [(n, st.tuples(s_, st.integers(0, 2)).map(_with_lookup_scenario)) for n, s_ in _strata(tier)]
+
+
+def _with_lookup_scenario(pair):
+    case, pick = pair
+    ms = case.get('maxsize')
+    if pick == 0 and isinstance(ms, int) and ms >= 1 and len(case['pool']) > ms:
+        # fill the cache, look one resident entry up repeatedly (must not count as a use), then overflow: if lookup() touched the
+        # recency / frequency bookkeeping the victim changes and the run diverges from its twin without the lookups
+        n = len(case['pool'])
+        pre = [['call', j, 0, 0] for j in range(ms)] + [['lookup', 0, 0]] * 3 + [['key', 0, 0]] + [['call', j, 0, 1] for j in range(ms, n)] + [['call', j, 0, 2] for j in range(ms)]
+        case = dict(case, ops=pre + list(case['ops']))
+    return case
 
 
 def check_unkeyable(case, tr):
